@@ -476,3 +476,10 @@ UNITS += [
     Unit("C04", "jsonargparse._actions:_ActionConfigLoad._load_config", lc_setup, lc_post, lc_raises, expect_cover=("return", "raise:TypeError"),
          trusted=["parse_value_or_config reads text or a path and reports the path", "_apply_actions by contract (its own unit)"]),
 ]
+
+
+from contracts.share import shared  # noqa: E402
+from contracts.env_var_unit import env_var_unit  # noqa: E402
+UNITS.append(env_var_unit("C04"))
+from contracts.appends_unit import apply_appends_unit  # noqa: E402
+UNITS.append(apply_appends_unit("C04"))
